@@ -7,6 +7,7 @@ from dateutil import parser as date_parser
 from dateutil.relativedelta import relativedelta
 from typing import Dict, List, Literal, Any, Callable
 from math import trunc, ceil, floor
+from decimal import Decimal, Context as DecimalContext, ROUND_HALF_UP, ROUND_UP, ROUND_DOWN
 from itertools import zip_longest
 
 
@@ -318,16 +319,30 @@ class AbstractExcelInPython(ABC):
 
         return result
 
+    @staticmethod
+    def _decimal_round(number: int | float, num_digits: int, rounding: str):
+        # Excel rounds the decimal notation of the number (15 significant digits), not its binary value
+        if isinstance(number, float):
+            if number != number or number in (float('inf'), float('-inf')):
+                return number
+            decimal_number = Decimal(format(number, '.15g'))
+        elif isinstance(number, int):
+            decimal_number = Decimal(int(number))
+        else:
+            raise TypeError('a number is required for rounding, not ' + type(number).__name__)
+
+        result = decimal_number.quantize(Decimal(1).scaleb(-int(num_digits)), rounding=rounding,
+                                         context=DecimalContext(prec=400))
+        return int(result) if isinstance(number, int) else float(result)
+
     def _round(self, number: float, num_digits: int):
-        return round(number, int(num_digits))
+        return self._decimal_round(number, num_digits, ROUND_HALF_UP)
 
     def _roundup(self, number: float, num_digits: int):
-        factor = 10 ** num_digits
-        return ceil(number * factor) / factor
+        return self._decimal_round(number, num_digits, ROUND_UP)
 
     def _rounddown(self, number: float, num_digits: int):
-        factor = 10 ** num_digits
-        return floor(number * factor) / factor
+        return self._decimal_round(number, num_digits, ROUND_DOWN)
 
     def _date(self, year: int, month: int, day: int):
         if isinstance(year, str):
